@@ -33,6 +33,15 @@ def ops18 : List (String × Op) := [
     .ok (Json.mkObj [("observed", ktensorJ (aprObserve colNorms1 K)),
                      ("then_redistributed", ktensorJ (redistribute0 (aprObserve colNorms1 K))),
                      ("redistributed", ktensorJ (redistribute0 K))])),
+  -- CP-APR MU: the kappa fix-up of one mode at outer iteration `it`
+  ("c18_mu_fixup", fun j => do
+    let it ← field j "it" >>= asNat
+    let kappa ← field j "kappa" >>= asRat
+    let kappatol ← field j "kappatol" >>= asRat
+    let phi ← field j "Phi" >>= asRatMat
+    let a ← field j "A" >>= asRatMat
+    .ok (Json.mkObj [("A", ratMatJ (muFixupIf it kappa kappatol phi a)),
+                     ("violates", Json.bool (decide (it > 0) && muViolates kappatol phi a))])),
   -- the loop model on a toy counter state: state, iteration count, number of printed lines
   ("c18_loop", fun j => do
     let p ← field j "printitn" >>= asNat
